@@ -3,6 +3,7 @@ package main
 import (
 	"fmt"
 	"sort"
+	"strings"
 	"sync"
 	"time"
 
@@ -152,4 +153,110 @@ func genCollCase(r *gen.Rand, timer bool) (caseSpec, string) {
 		cs.FlushAt = r.Range(0, n)
 	}
 	return cs, "collector"
+}
+
+// ---- sendByRepository (search/shards.go): one shard result split by repository ----
+
+func runByRepo(cs caseSpec) (in, impl, verdict, key string) {
+	e := cs.Events[0]
+	sr := mkEvent(e)
+	sr.RepoURLs = map[string]string{"r0": "u0"}
+	if cs.Multi {
+		sr.RepoURLs["r1"] = "u1"
+	}
+	sr.LineFragments = map[string]string{}
+	var rf []string
+	for i, f := range e.Files {
+		sr.Files[i].RepositoryID = uint32(f.Repo)
+		sr.Files[i].Repository = fmt.Sprintf("r%d", f.Repo)
+		sr.Files[i].RepositoryPriority = float64(f.Repo)
+		sr.RepoURLs[sr.Files[i].Repository] = "u"
+		rf = append(rf, fmt.Sprintf("%d:%d", f.ID, f.Repo))
+	}
+	if !cs.Multi { // exactly one entry, whatever the files say
+		sr.RepoURLs = map[string]string{"r0": "u0"}
+	}
+	multi := len(sr.RepoURLs) > 1
+	type outEv struct {
+		ids   []int
+		stats zoekt.Stats
+	}
+	var outs []outEv
+	search.VerifSendByRepository(sr, &zoekt.SearchOptions{}, zoekt.SenderFunc(func(r *zoekt.SearchResult) {
+		o := outEv{stats: r.Stats}
+		for _, f := range r.Files {
+			var id int
+			fmt.Sscanf(f.FileName, "f%d", &id)
+			o.ids = append(o.ids, id)
+		}
+		outs = append(outs, o)
+	}))
+	files := "-"
+	if len(rf) > 0 {
+		files = joinComma(rf)
+	}
+	st := zoekt.Stats{}
+	setCounters(&st, e.C)
+	st.Duration = durationOf(e.Dur)
+	st.FlushReason = zoekt.FlushReason(e.FR)
+	m := "0"
+	if multi {
+		m = "1"
+	}
+	in = fmt.Sprintf("byrepo %s %s %s", m, showStats(st), files)
+	var parts []string
+	var have, want []int
+	sumD := make([]int64, len(counterFields))
+	for _, o := range outs {
+		parts = append(parts, fmt.Sprintf("%s/%s", gen.NatList(o.ids), showStats(o.stats)))
+		have = append(have, o.ids...)
+		for k, v := range getCounters(o.stats) {
+			sumD[k] += v
+		}
+	}
+	impl = "-"
+	if len(parts) > 0 {
+		impl = joinSemi(parts)
+	}
+	for _, f := range e.Files {
+		want = append(want, f.ID)
+	}
+	sort.Ints(have)
+	sort.Ints(want)
+	verdict = "ok"
+	if !equalInts(have, want) {
+		verdict, key = fmt.Sprintf("sendByRepository delivered files %v of %v", clip(have), clip(want)), "byrepo-files-not-exactly-once"
+	}
+	for k := range sumD {
+		if sumD[k] != e.C[k] && verdict == "ok" {
+			verdict, key = fmt.Sprintf("sendByRepository: counter %s delivered %d, produced %d", counterNames[k], sumD[k], e.C[k]), "byrepo-counter-not-conserved:"+counterNames[k]
+		}
+	}
+	return
+}
+
+func joinComma(x []string) string { return strings.Join(x, ",") }
+func joinSemi(x []string) string  { return strings.Join(x, ";") }
+
+func genByRepoCase(r *gen.Rand) (caseSpec, string) {
+	g := &idgen{}
+	var e eventSpec
+	e.Prio, e.MaxP = "0", "0"
+	genStats(r, &e, r.Chance(1, 5))
+	n := r.Range(0, 10)
+	repo := r.Range(0, 3)
+	for i := 0; i < n; i++ {
+		f := g.file(r)
+		f.Pad = r.Intn(20)
+		f.Score = scoreKey(f.ID)
+		if f.Score == 0 {
+			f.Score = 10007
+		}
+		if r.Chance(1, 3) {
+			repo = r.Range(0, 3) // runs of the same repository; a repository may come back later
+		}
+		f.Repo = repo
+		e.Files = append(e.Files, f)
+	}
+	return caseSpec{Op: "byrepo", Events: []eventSpec{e}, Multi: r.Chance(3, 4)}, "byrepo"
 }
